@@ -286,3 +286,23 @@ package config
 //@   ensures [appended-in-order] len(c.subscribers) == old(len(c.subscribers)) + len(ss)
 //@             && (forall i int :: 0 <= i && i < old(len(c.subscribers)) ==> c.subscribers[i] == old(c.subscribers[i]))
 //@             && (forall i int :: 0 <= i && i < len(ss) ==> c.subscribers[old(len(c.subscribers)) + i] == ss[i])
+
+// ---- C15 / C17: a named time interval is taken as written: after decoding, only the name is checked - no definition is
+// rewritten or dropped (an all-empty definition matches every instant and stays). The decoder's own writes are outside
+// this frame (assumed).
+//@ func (*MuteTimeInterval).UnmarshalYAML
+//@   props C15 C17
+//@   nosafe
+//@   after call errors.New assume res0 != nil
+//@   ensures [decoder-error-is-reported] called("dynamic:param:unmarshal") && (ret("dynamic:param:unmarshal") != nil ==> result == ret("dynamic:param:unmarshal"))
+//@   ensures [only-a-missing-name-is-refused] ret("dynamic:param:unmarshal") == nil ==> (result != nil) == (mt.Name == "")
+//@   noeffect dynamic:param:unmarshal
+//@   assigns nothing
+//@ func (*TimeInterval).UnmarshalYAML
+//@   props C15 C17
+//@   nosafe
+//@   after call errors.New assume res0 != nil
+//@   ensures [decoder-error-is-reported] called("dynamic:param:unmarshal") && (ret("dynamic:param:unmarshal") != nil ==> result == ret("dynamic:param:unmarshal"))
+//@   ensures [only-a-missing-name-is-refused] ret("dynamic:param:unmarshal") == nil ==> (result != nil) == (ti.Name == "")
+//@   noeffect dynamic:param:unmarshal
+//@   assigns nothing
